@@ -253,6 +253,11 @@ class Encoder(Coder):
         :type state: CoderState
         :param reuse: Is this bitmap for reuse?
         """
+        # A bitmap whose delayed replication count is zero has no bits and defines
+        # nothing. Only a compiled template gets here in that case.
+        if state.n_031031 == 0:
+            return []
+
         # First get all the bit values for the bitmap
         if state.is_compressed:
             bitmap = state.decoded_values_all_subsets[0][state.idx_value - state.n_031031: state.idx_value]
